@@ -345,6 +345,108 @@ func histReject(r *rand.Rand) *script {
 	return s
 }
 
+// ---------------------------------------------------------------- long histories (counts beyond 2^8 and 2^16)
+
+var longCounts = []int{255, 256, 257, 65535, 65536, 65537, 70000, 1<<17 + 3}
+
+func longCfg(r *rand.Rand) cfgScript {
+	c := genCfg(r)
+	c.CacheSize = 1000
+	c.TTL, c.MinInterval, c.CounterDuration = hugeDur(r), 0, hugeDur(r)
+	if c.CodeLen < 1 {
+		c.CodeLen = 4
+	}
+	return c
+}
+
+// long-attempts: one sent code, n further verifications (wrong or right code) in a row, then the right code and hash;
+// whatever n, the code stays locked until a new send goes out
+func histLongAttempts(r *rand.Rand, n int) *script {
+	c := longCfg(r)
+	c.MaxVerify = r.Intn(6)
+	c.MaxCount = 3 + r.Intn(3)
+	ps := genPairs(r, 2, c.CodeLen)
+	q := ps[0]
+	s := &script{Class: "long-attempts", RL: true, Cfg: c}
+	right := opScript{K: "verify", A: q.a, P: q.p, Code: "right", Hash: "right"}
+	s.Ops = append(s.Ops, genSend(r, q))
+	if r.Intn(2) == 0 {
+		s.Ops = append(s.Ops, right)
+	}
+	rep := opScript{K: "verify", A: q.a, P: q.p, Code: "mut", Hash: "right", Pos: r.Intn(8), N: n}
+	switch r.Intn(4) {
+	case 0:
+		rep.Code = "right"
+	case 1:
+		rep.Hash = "mut"
+	}
+	s.Ops = append(s.Ops, rep, right, right)
+	// another pair is not affected, a new send resets
+	s.Ops = append(s.Ops, genSend(r, ps[1]), opScript{K: "verify", A: ps[1].a, P: ps[1].p, Code: "right", Hash: "right"})
+	s.Ops = append(s.Ops, genSend(r, q), right)
+	return s
+}
+
+// long-sends: n refused sends in a row (window full, or inside the minimum interval), then the code sent last still
+// verifies and a further send is still refused; or a window admitting more than 2^16 sends, filled and overrun
+func histLongSends(r *rand.Rand, n int, fill bool) *script {
+	c := longCfg(r)
+	c.MaxVerify = 2 + r.Intn(3)
+	ps := genPairs(r, 1, c.CodeLen)
+	q := ps[0]
+	s := &script{Class: "long-sends", RL: true, Cfg: c}
+	right := opScript{K: "verify", A: q.a, P: q.p, Code: "right", Hash: "right"}
+	send := opScript{K: "send", A: q.a, P: q.p, SmsOK: true}
+	switch {
+	case fill:
+		c.Mock = true
+		c.MaxCount = n - 1 // n sends fit
+		send.N = n
+		s.Ops = append(s.Ops, send, right)
+		send.N = 3
+		s.Ops = append(s.Ops, send, right)
+	case r.Intn(2) == 0:
+		c.MaxCount = r.Intn(3)
+		send.N = c.MaxCount + 1
+		s.Ops = append(s.Ops, send)
+		send.N = n
+		s.Ops = append(s.Ops, send, right)
+		send.N = 1
+		s.Ops = append(s.Ops, send)
+	default:
+		c.MinInterval = hugeDur(r)
+		c.MaxCount = 1 + r.Intn(3)
+		s.Ops = append(s.Ops, send)
+		send.N = n
+		s.Ops = append(s.Ops, send, right)
+	}
+	s.Cfg = c
+	return s
+}
+
+// longScripts: the fixed ones (every seed) and a few drawn ones
+func longScripts(r *rand.Rand, extra int) []*script {
+	out := []*script{
+		histLongAttempts(r, 65536), histLongAttempts(r, 70000), histLongAttempts(r, 256),
+		histLongSends(r, 65536, false), histLongSends(r, 65536+r.Intn(3), true),
+	}
+	for i := 0; i < extra; i++ {
+		n := longCounts[r.Intn(len(longCounts))]
+		switch r.Intn(4) {
+		case 0:
+			out = append(out, histLongSends(r, n, false))
+		case 1:
+			if n > 256 {
+				n = 255 + r.Intn(3) // filling a window beyond 2^16 is done once per run (above)
+			}
+			out = append(out, histLongSends(r, n, true))
+		default:
+			out = append(out, histLongAttempts(r, n))
+		}
+	}
+	return out
+}
+
 // ---------------------------------------------------------------- timed histories (one mid-range duration D)
 
 // A timed history lets real time pass (sleep ops of 2.5 D) so that one of the three durations is
@@ -571,7 +673,17 @@ func generate(e *vh.Env) {
 	for _, g := range histGens {
 		total += g.weight
 	}
+	long := longScripts(r, e.Scale(3, 30))
+	every := nh / (len(long) + 1)
+	if every < 1 {
+		every = 1
+	}
 	for i := 0; i < nh; i++ {
+		if i%every == every-1 && len(long) > 0 {
+			// spread over the case files: each takes a second or two to evaluate
+			e.Emit(runScript(long[0]))
+			long = long[1:]
+		}
 		var g histGen
 		x := r.Intn(total)
 		for _, cand := range histGens {
@@ -589,6 +701,9 @@ func generate(e *vh.Env) {
 			}
 		}
 		e.Emit(runScript(g.fn(r)))
+	}
+	for _, s := range long {
+		e.Emit(runScript(s))
 	}
 	nt := e.Scale(12, 60)
 	var timed []*script
@@ -610,6 +725,7 @@ func generate(e *vh.Env) {
 		e.Emit(runSample(&sampleScript{CodeLen: 4 + 2*(i%3), Count: 200}))
 	}
 	e.Meta["histories"] = nh
+	e.Meta["long_histories"] = "run-length form, repeat counts from {255,256,257,65535,65536,65537,70000,131075}; fixed every run: 65536 and 70000 further attempts against one sent code, 65536 refused sends, a window of >= 65536 sends filled and overrun"
 	e.Meta["nonce_runs"] = nn
 	e.Meta["samples"] = ns
 	e.Meta["regimes"] = "all classes but timed-*: TTL, MinInterval, CounterDuration only below zero, zero (MinInterval) or at least 1000 h, so that no decision depends on the real clock; timed-*: one duration D of 60 ms (240 ms, 960 ms on a retry) crossed by sleeping 2.5 D, case kept only when every pair of calls was measured clearly closer or clearly farther apart than D"
